@@ -149,6 +149,12 @@ def _perplexity_input_check(
     else:
         _target = target
 
+    if _target.numel() > 0 and torch.min(_target) < 0:
+        raise ValueError(
+            "Class labels in `target` tensor cannot be negative (other than `ignore_index`), got "
+            f"target label of {int(torch.min(_target))}."
+        )
+
     if _target.numel() > 0 and input.size(2) <= torch.max(_target):
         raise ValueError(
             "Class labels in `target` tensor cannot be larger than vocab_size minus one, got "
